@@ -26,9 +26,18 @@ import (
 type memLoc struct {
 	mu    sync.Mutex
 	files map[string][]byte
+	hist  map[string][]byte // last content ever written per path (survives Remove): what was persisted
 }
 
-func newMemLoc() *memLoc { return &memLoc{files: map[string][]byte{}} }
+func newMemLoc() *memLoc { return &memLoc{files: map[string][]byte{}, hist: map[string][]byte{}} }
+
+// Written returns what was last written to path, also if the file has been removed since.
+func (m *memLoc) Written(path string) ([]byte, bool) {
+	m.mu.Lock()
+	defer m.mu.Unlock()
+	b, ok := m.hist[path]
+	return b, ok
+}
 
 func (m *memLoc) Write(path string, data io.Reader) (string, error) {
 	b, err := io.ReadAll(data)
@@ -38,6 +47,7 @@ func (m *memLoc) Write(path string, data io.Reader) (string, error) {
 	m.mu.Lock()
 	defer m.mu.Unlock()
 	m.files[path] = b
+	m.hist[path] = b
 	return path, nil
 }
 
